@@ -247,6 +247,7 @@ class Engine:
         self.notes = []
         self.fuel_used = 0
         self.nfresh = 0
+        self.path_cache = {}
         self.solver.push()
         rec: dict | None = None
         try:
